@@ -2,18 +2,31 @@
 (* Trace validation for udp::socket (C08, UDP clauses of C13 and C20). *)
 EXTENDS Udp, Json, IOUtils
 TraceLog == ndJsonDeserialize(IOEnv.TRACE)
-VARIABLES l, phase
-tvars == <<uvars, l, phase>>
+VARIABLES l, phase,
+          rt,    \* the configured routes: latency / bandwidth per address and of the shared network hop (C09)
+          sent   \* datagrams still travelling: id -> <<send time, source address, destination address, size>>
+tvars == <<uvars, l, phase, rt, sent>>
 Ev == TraceLog[l]
 IsEvent(e) == l <= Len(TraceLog) /\ Ev.e = e /\ l' = l + 1
-Run == phase = "run" /\ UNCHANGED phase
+Run0 == phase = "run" /\ UNCHANGED <<phase, rt>>
+Run == Run0 /\ UNCHANGED sent
+NoRt == [tpk |-> 0, net |-> [lat |-> 0, bw |-> 0], a |-> [x \in {} |-> 0]]
+\* C09, end to end: the one-way delay of a datagram is at least the sum of the latencies and serialisation times of
+\* the hops of its route (payload bytes only, whole milliseconds, capped to stay inside 31 bits: a sound lower bound)
+Min2(a, b) == IF a < b THEN a ELSE b
+Ser(len, bw) == IF bw = 0 \/ rt.tpk = 0 THEN 0 ELSE Min2((len * 1000) \div bw, 2000000000 \div (rt.tpk * 4)) * rt.tpk
+MinDelay(src, dst, len) ==
+    IF src \notin DOMAIN rt.a \/ dst \notin DOMAIN rt.a THEN 0
+    ELSE rt.a[src].ol + Ser(len, rt.a[src].ob) + rt.net.lat + Ser(len, rt.net.bw) + rt.a[dst].il + Ser(len, rt.a[dst].ib)
+Forget(id) == sent' = [k \in DOMAIN sent \ {id} |-> sent[k]]
 IsOp(o) == IsEvent("Op") /\ Ev.op = o /\ Run
 Range(f) == {f[i] : i \in DOMAIN f}
 MtuFn(lst) == [p \in {<<r.a, r.b>> : r \in Range(lst)} |-> (CHOOSE r \in Range(lst) : <<r.a, r.b>> = p).m]
 EmptyTopo == [nat |-> [a \in {} |-> ""], mtu |-> [p \in {} |-> 0], dmtu |-> 1475, node |-> <<>>]
 
-TInit == l = 1 /\ phase = "idle" /\ UInit(EmptyTopo)
+TInit == l = 1 /\ phase = "idle" /\ rt = NoRt /\ sent = <<>> /\ UInit(EmptyTopo)
 TCfg == /\ IsEvent("Cfg") /\ phase = "idle" /\ phase' = "run"
+        /\ rt' = (IF "rt" \in DOMAIN Ev THEN Ev.rt ELSE NoRt) /\ sent' = <<>>
         /\ now' = 0 /\ topo' = [nat |-> Ev.nat, mtu |-> MtuFn(Ev.mtu), dmtu |-> Ev.dmtu, node |-> <<>>]
         /\ us' = [s \in Socks |-> FreshSock] /\ dg' = [i \in {} |-> 0] /\ order' = <<>>
 TAdv == IsEvent("Adv") /\ Run /\ Advance(Ev.t)
@@ -27,14 +40,16 @@ TMove == IsOp("move") /\ UNCHANGED uvars
 TSndBuf == IsOp("sndbuf") /\ SetSndBuf(Ev.s, Ev.n)
 TDf == IsOp("df") /\ SetDf(Ev.s, Ev.v)
 \* a send_to with a writable-wait pending: one extra (silent) step aborts the wait first
-TSend == /\ IsEvent("Send") /\ Run /\ Ev.t = now /\ ~us[Ev.s].wop
+TSend == /\ IsEvent("Send") /\ Run0 /\ Ev.t = now /\ ~us[Ev.s].wop
          /\ SendTo(Ev.s, Ev.id, <<Ev.dst[1], Ev.dst[2]>>, Ev.size, Ev.ret, Ev.ec)
+         /\ sent' = IF Ev.id \in DOMAIN dg' THEN (Ev.id :> <<now, us[Ev.s].ep[1], Ev.dst[1], Ev.size>>) @@ sent ELSE sent
 TSupersede == IsEvent("SupersedeW") /\ Run /\ SupersedeWaitW(Ev.s)
 TStartWaitW == IsEvent("StartWaitW") /\ Run /\ StartWaitW(Ev.s)
 TWritable == IsEvent("Writable") /\ Run /\ ~Ev.inline /\ (IF us[Ev.s].wop THEN Writable(Ev.s) ELSE WritableLate(Ev.s))
 TWaitWAborted == /\ IsEvent("WaitWAborted") /\ Run /\ ~Ev.inline /\ WritableLate(Ev.s)
-TArrive == IsEvent("Arrive") /\ Run /\ Ev.t = now /\ Ev.whole /\ Arrive(Ev.id)
-TLost == IsEvent("Lost") /\ Run /\ Ev.finite /\ TailDrop(Ev.id)
+InTime(id) == id \in DOMAIN sent => now - sent[id][1] + 1 >= MinDelay(sent[id][2], sent[id][3], sent[id][4])
+TArrive == IsEvent("Arrive") /\ Run0 /\ Ev.t = now /\ Ev.whole /\ Arrive(Ev.id) /\ InTime(Ev.id) /\ Forget(Ev.id)
+TLost == IsEvent("Lost") /\ Run0 /\ Ev.finite /\ TailDrop(Ev.id) /\ Forget(Ev.id)
 TStartRecv == IsEvent("StartRecv") /\ Run /\ StartRecv(Ev.s, Ev.style, Ev.cap)
 TReady == IsEvent("Ready") /\ Run /\ ~Ev.inline /\ (IF us[Ev.s].open THEN Ready(Ev.s) ELSE ReadyLate(Ev.s))
 TRecv == /\ IsEvent("Recv") /\ Run /\ Ev.t = now /\ ~Ev.inline /\ Ev.intact /\ us[Ev.s].open
@@ -50,15 +65,18 @@ TRecvLate == /\ IsEvent("Recv") /\ Run /\ Ev.t = now /\ ~Ev.inline /\ Ev.intact 
              /\ RecvLate(Ev.s, Ev.id, Ev.n, IF Len(Ev.from) = 2 THEN <<Ev.from[1], Ev.from[2]>>
                                                                    ELSE Head(us[Ev.s].grave).from)
 TRecvAborted == /\ IsEvent("RecvAborted") /\ Run /\ ~Ev.inline /\ AbortRecv(Ev.s)
-TEnd == /\ IsEvent("End") /\ phase = "run" /\ phase' = "idle" /\ Quiescent /\ UNCHANGED uvars
+TEnd == /\ IsEvent("End") /\ phase = "run" /\ phase' = "idle" /\ Quiescent /\ UNCHANGED <<uvars, rt, sent>>
 TThrow == IsEvent("Throw") /\ Run /\ UNCHANGED uvars
-TEndThrown == IsEvent("EndThrown") /\ phase = "run" /\ phase' = "idle" /\ UNCHANGED uvars
+TEndThrown == IsEvent("EndThrown") /\ phase = "run" /\ phase' = "idle" /\ UNCHANGED <<uvars, rt, sent>>
 TWireU == IsEvent("WireU") /\ Run /\ UNCHANGED uvars
 TNext == TMove \/ TWireU \/ TSupersede \/ TStartWaitW \/ TWritable \/ TWaitWAborted \/ TRecvLate \/ TThrow \/ TEndThrown \/ TCfg \/ TAdv \/ TBind \/ TClose \/ TOpen \/ TCancel \/ TSndBuf \/ TDf \/ TSend \/ TArrive \/ TLost
          \/ TStartRecv \/ TReady \/ TRecv \/ TRecvAborted \/ TEnd
 TSpec == TInit /\ [][TNext]_tvars
 
-RecordProgress == TLCSet(1, [l |-> l, inflight |-> Len(order)])
+RecordProgress == TLCSet(1, IF l <= Len(TraceLog) /\ Ev.e = "Arrive" /\ Ev.id \in DOMAIN sent
+                            THEN [l |-> l, inflight |-> Len(order), elapsed |-> now - sent[Ev.id][1],
+                                  need |-> MinDelay(sent[Ev.id][2], sent[Ev.id][3], sent[Ev.id][4])]
+                            ELSE [l |-> l, inflight |-> Len(order)])
 TraceAccepted == LET d == TLCGet("stats").diameter - 1 IN
                  /\ PrintT(<<"MATCHED", d, Len(TraceLog), ToJson(TLCGet(1))>>)
                  /\ d = Len(TraceLog)
